@@ -138,6 +138,11 @@ func (c connectUnaryGetClientProtocol) prepareUnmarshalledRequest(op *operation,
 		}
 		msgData = dst.Bytes()
 	}
+	if len(msgData) == 0 {
+		// Zero bytes are the empty message, as they are in the body of a
+		// POST (which is never handed to the codec when it is empty).
+		return nil
+	}
 	return op.client.codec.Unmarshal(msgData, target)
 }
 
